@@ -803,6 +803,8 @@ pub fn run_c03(ctx: &Ctx) -> Report {
     let plan = SweepPlan::standard(ctx);
     let all = sweep(ctx, &plan, &mut rep, &check_c03);
     vacuity_guard(&mut rep, &all, rm::cov::ALL);
+    #[cfg(feature = "likelysubtags")]
+    super::conc::run_family(ctx, "parse", "c03.schedule", &mut rep);
     rep.rule = "E1 token trees + E2 skeletons and their edit neighbourhoods; each input is classified by the three-zone oracle (must-accept with value / either / must-reject / out-of-scope) and handed to Locale::from_bytes; value observed through the public getters and to_string. Non-trivial = not an immediate bad-language reject.".into();
     rep.assumptions = vec![
         "reference grammar and zones of DESIGN.md §3.1".into(),
